@@ -478,6 +478,13 @@ def step (st : DSt) (toks : List String) : DSt × String :=
       (st, s!"{((pathwayOfName forced).map pathwayName).getD "none"} ## too-long")
     else
       (st, s!"{pathwayName ((pathwayOfName forced).getD d)} ## " ++ (if forced = "auto" then dtag else "forced"))
+  -- concrete text on an engine whose table binds names to values of unusual types: pathway selection as for `cmet`
+  | ["cmetv", _kind, forced, len, raw, low] =>
+    let (d, dtag) := detect [decodeCps "74.76"] (decodeCps raw) (decodeCps low)
+    if natD len > st.cfg.maxLen then
+      (st, s!"{((pathwayOfName forced).map pathwayName).getD "none"} ## too-long")
+    else
+      (st, s!"{pathwayName ((pathwayOfName forced).getD d)} ## " ++ (if forced = "auto" then dtag else "forced"))
   | "bound" :: _src :: toks =>
     match parseIExpr toks with
     | some (e, []) =>
